@@ -16,16 +16,25 @@ def _one(args):
     path, mode, c04 = args
     try:
         ta = tokenizer.TokenizerAnalysis(path)
-        res = ta.run(mode, c04=c04)
-        if mode == 0 and not c04:
-            obs, alarms, spec = ta.check_ctor()
-            res['ctor'] = dict(obligations=obs, alarms=alarms, spec=spec, flag_fields=getattr(ta, 'flag_fields', None))
-            res['structure'] = dict(generator=ta.gen.name, entry=ta.entry, loop_line=ta.loop.lineno)
-        return res
     except (Unsupported, tokenizer.AnalysisError) as exc:
         return dict(mode=mode, c04=c04, error='%s: %s' % (type(exc).__name__, exc))
+    try:
+        res = ta.run(mode, c04=c04)
+    except (Unsupported, tokenizer.AnalysisError) as exc:
+        res = dict(mode=mode, c04=c04, error='%s: %s' % (type(exc).__name__, exc))
     except RecursionError as exc:
-        return dict(mode=mode, c04=c04, error='RecursionError: %s' % exc)
+        res = dict(mode=mode, c04=c04, error='RecursionError: %s' % exc)
+    if mode == 0 and not c04:
+        # the constructor's accept / reject region is compared with the spec region whether or not the loop analysis could run
+        # (a constructor that accepts tuples outside the region is decided on its own paths)
+        try:
+            obs, alarms, spec = ta.check_ctor()
+            res['ctor'] = dict(obligations=obs, alarms=alarms, spec=spec, flag_fields=getattr(ta, 'flag_fields', None))
+            if 'error' not in res:
+                res['structure'] = dict(generator=ta.gen.name, entry=ta.entry, loop_line=ta.loop.lineno)
+        except (Unsupported, tokenizer.AnalysisError, RecursionError) as exc:
+            res['ctor_error'] = '%s: %s' % (type(exc).__name__, exc)
+    return res
 
 
 def _clean(o):
